@@ -445,6 +445,7 @@ type c12Obs struct {
 	Cur     *c12Q
 	Times   []int64
 	AsOf    map[int64]*c12Q
+	IIDs    map[string]uint64 // internal ids of the pool ids known when the instants were fixed
 	Queries int
 }
 
@@ -452,9 +453,14 @@ var c12Scopes = [][]string{nil, {c12DS}}
 
 // c12Observe reads everything the statement names. skipIn: targets whose
 // wildcard incoming queries are in a known finding's shape (not recorded).
-// times: the instants for point-in-time queries (nil: every commit instant of
-// the feed and the nanosecond before it); asOf=false leaves them out.
-func c12Observe(h *kit.Hub, skipIn map[string]bool, times []int64, asOf bool) (*c12Obs, error) {
+// prev: an earlier observation whose instants (and known ids) are to be
+// queried again; nil: every commit instant of the feed and the nanosecond
+// before it. asOf=false leaves the point-in-time part out.
+func c12Observe(h *kit.Hub, skipIn map[string]bool, prev *c12Obs, asOf bool) (*c12Obs, error) {
+	var times []int64
+	if prev != nil {
+		times = prev.Times
+	}
 	p := c12Pool()
 	o := &c12Obs{Latest: map[string]string{}, LO: map[string]string{}, AsOf: map[int64]*c12Q{}}
 	d := h.Dsm.GetDataset(c12DS)
@@ -518,7 +524,12 @@ func c12Observe(h *kit.Hub, skipIn map[string]bool, times []int64, asOf bool) (*
 	if !asOf {
 		return o, nil
 	}
-	if times == nil {
+	if prev != nil {
+		// point-in-time lookups for the ids that were known then
+		iids = prev.IIDs
+	}
+	o.IIDs = iids
+	if prev == nil {
 		seen := map[int64]bool{}
 		for _, v := range o.Feed {
 			for _, t := range []int64{int64(v.Rec) - 1, int64(v.Rec)} {
@@ -762,11 +773,11 @@ func (r *c12Runner) fail(format string, a ...any) {
 	r.f.Fatalf("%s\nVERIF-CASE-BEGIN\n%s\nVERIF-CASE-END", fmt.Sprintf(format, a...), b)
 }
 
-func (r *c12Runner) observe(h *kit.Hub, skip map[string]bool, times []int64, asOf bool, when string) *c12Obs {
+func (r *c12Runner) observe(h *kit.Hub, skip map[string]bool, prev *c12Obs, asOf bool, when string) *c12Obs {
 	if s := c12Raw(h); s != "" {
 		r.fail("%s (%s)", s, when)
 	}
-	o, err := c12Observe(h, skip, times, asOf)
+	o, err := c12Observe(h, skip, prev, asOf)
 	if err != nil {
 		r.fail("READ-FAILED %s: %v", when, err)
 	}
@@ -841,7 +852,7 @@ func (r *c12Runner) runThreshold(flush int) {
 		r.fail("COMPACTION-ERROR flush=%d: %v", flush, err)
 	}
 	r.hits[flush] = hits
-	after := r.observe(h, r.skipIn, before.Times, true, fmt.Sprintf("after compaction flush=%d", flush))
+	after := r.observe(h, r.skipIn, before, true, fmt.Sprintf("after compaction flush=%d", flush))
 	r.compare(before, after, fmt.Sprintf("flush=%d", flush))
 	r.compactions++
 }
@@ -911,7 +922,7 @@ func (r *c12Runner) runRace(rc c12Race) {
 		// a rejected write is not acknowledged: expected state is the one without it
 		r.fail("RACING-WRITE-REJECTED %s: %v", what, werr)
 	}
-	after := r.observe(h, skip, before.Times, true, "after compaction with racing writer")
+	after := r.observe(h, skip, before, true, "after compaction with racing writer")
 	if s := c12CmpCurrent(want, after); s != "" {
 		r.fail("%s differs from the twin store that took the same writes and was never compacted (%s)", s, what)
 	}
@@ -963,13 +974,13 @@ func (r *c12Runner) runKill(k c12Kill) {
 	h2 := c12Open(r.f, dir)
 	defer func() { _ = h2.Store.Close() }()
 	what := fmt.Sprintf("flush=%d process killed at arrival %d/%d of %s, store reopened", k.Flush, n, hitsTotal, c12Point)
-	after := r.observe(h2, r.skipIn, before.Times, true, what)
+	after := r.observe(h2, r.skipIn, before, true, what)
 	r.compare(before, after, what)
 	// a later complete compaction must again be invisible
 	if _, err := c12Compact(h2, k.Flush, nil); err != nil {
 		r.fail("COMPACTION-ERROR on the reopened store (%s): %v", what, err)
 	}
-	after2 := r.observe(h2, r.skipIn, before.Times, true, what+", compacted again")
+	after2 := r.observe(h2, r.skipIn, before, true, what+", compacted again")
 	r.compare(before, after2, what+", compacted again")
 	r.kills++
 	if n > 1 && n < hitsTotal {
